@@ -2,6 +2,6 @@ SPECIFICATION Spec
 CONSTANTS
   HdrLen = 4
   MaxMsg = 65535
-  Dev = {"zl_eof", "ux_full_count"}
+  Dev = {}
 POSTCONDITION Accepted
 CHECK_DEADLOCK FALSE
